@@ -1,7 +1,7 @@
 (* Executable model of the XML tree builder (xml5ever/src/tree_builder/mod.rs) at
    TOKEN level, together with the two pieces of the XML tokenizer that decide
    which attributes and which qualified names the tree builder gets to see:
-   finish_attribute (tokenizer/mod.rs:1271-1310) and QualNameTokenizer /
+   finish_attribute (tokenizer/mod.rs, as of fix df982ff / 8f1ed74) and QualNameTokenizer /
    process_qname (tokenizer/qname.rs, tokenizer/mod.rs:56-78).
 
    Strings are lists of code points.  Atoms (Prefix, Namespace, LocalName) are
@@ -90,20 +90,29 @@ Record attr := mka { aname : qname; avalue : str }.
 
 Definition rawattr := (str * str)%type.       (* name and value as typed in the tag *)
 
+(* "is a namespace declaration": xmlns="..." or xmlns:p="..." (p:xmlns is an
+   ordinary attribute); the same test orders the tokenizer's attribute list
+   and selects the declarations in process_namespaces *)
 Definition is_xmlns_attr (q : qname) : bool :=
-  str_eqb (qlocal q) s_xmlns || ostr_eqb (qprefix q) (Some s_xmlns).
+  (is_none (qprefix q) && str_eqb (qlocal q) s_xmlns) || ostr_eqb (qprefix q) (Some s_xmlns).
+
+(* QualName equality: prefix, namespace and local name *)
+Definition qname_eqb (a b : qname) : bool :=
+  ostr_eqb (qprefix a) (qprefix b) && str_eqb (qns a) (qns b) && str_eqb (qlocal a) (qlocal b).
 
 (* finish_attribute: [attrs] = current_tag_attrs, (name, value) = current_attr_*.
-   The duplicate test compares the RAW name with the stored LOCAL names. *)
+   The name is split first; a duplicate is an attribute with the same
+   qualified name (a.name == qname). *)
 Definition finish_attribute (attrs : list attr) (nv : rawattr) : list attr :=
   let (name, value) := nv in
   if is_nil name then attrs
-  else if existsb (fun a => str_eqb (qlocal (aname a)) name) attrs then attrs
   else
     let q := process_qname name in
-    let a := mka q value in
-    if is_xmlns_attr q then a :: attrs      (* insert(0, attr) *)
-    else attrs ++ [a].                       (* push(attr) *)
+    if existsb (fun a => qname_eqb (aname a) q) attrs then attrs
+    else
+      let a := mka q value in
+      if is_xmlns_attr q then a :: attrs      (* insert(0, attr) *)
+      else attrs ++ [a].                       (* push(attr) *)
 
 Definition tok_attrs (raws : list rawattr) : list attr :=
   fold_left finish_attribute raws [].
